@@ -12,6 +12,9 @@ checks = {
          "TLA+ model checking (TLC) + automaton-driven sweep + TLC trace validation of end-to-end conversations"),
  "C03": ("session", "TLC checks the transaction-order invariants and step properties on the complete bounded state graph of SmtpServer.tla (12 configurations); every transition is executed on the real server (replies, callbacks, projected state compared) and recorded random walks are validated by TLC against the specification",
          "bounded instance (<=3 recipients, chunk sizes {0,6}, error threshold 3); one concrete line per abstract command; TLC, concretisation tables and in-memory transport trusted", SESS),
+ "C05": ("session", "SmtpServer.tla models BDAT with the declared size as a parameter, refusal paths that discard the chunk, and failing backends with an octet budget (fail at once / after 1 / after 4 octets / at the end / panic); TLC checks the step properties; every BDAT edge of two instances (sizes {0,6,12} and {0,3,6,12} against limit 8) is replayed; random chunked conversations (sizes 0..11 and 260, up to 4 chunks, LAST on empty or non-empty chunk or missing, refusal states, malformed arguments, over the limit) with payloads made of CRLF.CRLF runs, command look-alikes, NUL/8-bit octets and LF-free runs longer than the line limit are recorded lock-step and validated by TLC with the exact sizes, the backend's octets are compared with the concatenation of the payloads, and each conversation is re-run in one write, in random segments and with line and payload split octet by octet, which must give identical replies and callbacks",
+         "chunked conversations are sampled (300 quick / 5000 thorough); a BDAT whose size argument is unparsable cannot be framed by anyone and is modelled as the code treats it",
+         SESS),
  "C06": ("datastream+session", "DataStream.tla with a budget (TLC: never more than N, failure only when longer, a fitting message handled as without limit); reader sweep over budgets; end-to-end sizes N-2..N+2 around three limits via DATA in SMTP and LMTP; SIZE= and over-limit BDAT edges of the session graph replayed",
          "limits {4,5,9} end to end, budgets 1..12 at reader level, limit 8 with chunk sizes {0,6} in the session graph",
          "TLA+ model checking (TLC) + automaton-driven sweep + session-graph edge replay"),
